@@ -93,7 +93,11 @@ manifest = {
  },
  "engines": [
    {"name": "hv", "path": "harness/", "serves_properties": sorted(CHECKS.keys()),
-    "kind_free_text": "Rust binary: corpus replay + exhaustive sweeps + 16-worker proptest driver with shrinking; oracles = independent RFC 9180 reference model, own big-integer curve arithmetic, abstract sequence models"},
+    "kind_free_text": "Rust binary: corpus replay + exhaustive sweeps + 16-worker proptest driver with shrinking (proptest for generated cases, structural JSON shrinking for sweep/corpus failures); oracles = independent RFC 9180 reference model, own big-integer curve arithmetic, abstract sequence models"},
+   {"name": "fuzz", "path": "fuzz/", "serves_properties": ["C02", "C04", "C05", "C09", "C12", "C13", "C14"],
+    "kind_free_text": "cargo-fuzz / libFuzzer targets fz_deser, fz_open, fz_receiver, fz_sender, fz_session (thorough tier, -fork=16): bytes are decoded into the same case types and judged by the same oracles inside the target; artifacts are re-checked outside libFuzzer before they count"},
+   {"name": "probes", "path": "probes/", "serves_properties": ["C17", "C18"],
+    "kind_free_text": "small crates compiled against the tree under test: in-place / allocating / hook-use probes per feature subset (C17), static Send+Sync assertions over all suites (C18)"},
  ],
  "checks": [],
  "not_applicable": [],
